@@ -106,9 +106,10 @@ func (c *SzseBinChecksumService) Algorithm() string {
 func (c *SzseBinChecksumService) Calc(data *bytes.Buffer) int32 {
 	var checksum int32
 	for _, b := range data.Bytes() {
-		checksum += int32(b)
+		// reduce as we go: an unreduced int32 sum overflows after ~8 MiB of input
+		checksum = (checksum + int32(b)) % 256
 	}
-	return checksum % 256
+	return checksum
 }
 
 func init() {
